@@ -31,7 +31,32 @@ func hC20Fallback() {
 		resolvers[i] = &fakeResolver{mode: modes[i]}
 		fr = append(fr, resolvers[i])
 	}
-	mt, err := fr.FindMessageByName("p.M")
+	// all four lookups of a TypeResolver go through the same fallback rule, each by its own key
+	var found bool
+	var err error
+	var asked string
+	lookup := verifChoose("lookup", 4)
+	switch lookup {
+	case 0:
+		var mt protoreflect.MessageType
+		mt, err = fr.FindMessageByName("p.M")
+		found, asked = mt != nil, "p.M"
+	case 1:
+		var mt protoreflect.MessageType
+		mt, err = fr.FindMessageByURL("type.googleapis.com/p.M")
+		found, asked = mt != nil, "url:type.googleapis.com/p.M"
+		if mt != nil {
+			verifAssert(string(mt.Descriptor().FullName()) == "by-url:type.googleapis.com/p.M", "C20: a lookup by URL is answered by the delegates' lookup by URL, with the URL as given")
+		}
+	case 2:
+		var xt protoreflect.ExtensionType
+		xt, err = fr.FindExtensionByName("p.ext")
+		found, asked = xt != nil, "ext:p.ext"
+	default:
+		var xt protoreflect.ExtensionType
+		xt, err = fr.FindExtensionByNumber("p.M", 7)
+		found, asked = xt != nil, "extnum:p.M"
+	}
 	firstOK := -1
 	for i, m := range modes {
 		if m == 0 && firstOK < 0 {
@@ -41,10 +66,10 @@ func hC20Fallback() {
 	verifObsBool("found", err == nil)
 	if firstOK >= 0 {
 		verifReach("some-resolver-knows")
-		verifAssert(err == nil && mt != nil, "C20: the first resolver that knows the type wins")
+		verifAssert(err == nil && found, "C20: the first resolver that knows the type wins")
 		for i, r := range resolvers {
 			if i <= firstOK {
-				verifAssert(len(r.seen) == 1, "C20: resolvers are asked in order until one succeeds")
+				verifAssert(len(r.seen) == 1 && r.seen[0] == asked, "C20: resolvers are asked in order until one succeeds, by the same kind of lookup and key")
 			} else {
 				verifAssert(len(r.seen) == 0, "C20: later resolvers are not asked after a success")
 			}
@@ -52,7 +77,7 @@ func hC20Fallback() {
 		return
 	}
 	verifReach("no-resolver-knows")
-	verifAssert(err != nil && mt == nil, "C20: unknown everywhere is an error")
+	verifAssert(err != nil && !found, "C20: unknown everywhere is an error")
 	if modes[k-1] == 1 {
 		verifAssert(errors.Is(err, protoregistry.NotFound), "C20: the last resolver's NotFound is reported")
 	} else {
